@@ -2,6 +2,7 @@ package main
 
 import (
 	"fmt"
+	"os"
 	"sort"
 	"strings"
 
@@ -26,7 +27,7 @@ func dumpPaths(w *World, name string) {
 	paths, err := w.Paths(fn)
 	fmt.Printf("%s: %d paths err=%v\n", fn, len(paths), err)
 	for i, p := range paths {
-		if i > 40 {
+		if i > 40 && os.Getenv("GMARSLINT_DUMPALL") == "" {
 			fmt.Println("...")
 			break
 		}
